@@ -155,13 +155,34 @@ def execute(par, hist, timeout=20.0):
                 c = CacheDataset(ups, keep_mem_free=None)
             init = list(calls)
             insts = [c]
+            # iteration mode (for half of the histories, chosen from the history
+            # itself): an access ds[i] that continues the run 0, 1, 2, ... of one
+            # instance is performed with next() on ONE iterator over that
+            # instance which stays OPEN while other accesses happen in between
+            # (CacheDataset.__iter__ is `for i in range(len): yield self[i]`, so
+            # the meaning is the same): suspended iterations meet examples that
+            # were cached through another route in the meantime.
+            import zlib
+            iter_mode = zlib.crc32(json.dumps(hist, sort_keys=True).encode()) % 2 == 0
+            open_its = {}       # instance number -> [iterator, next index]
             for s in hist:
                 exc, vs, ks = 'none', [], []
                 try:
                     op = s['op']
                     ds = insts[s['inst'] - 1] if s['inst'] >= 1 else None
                     if op == 'gi':
-                        vs = [_enc(ds[s['i']])]
+                        v = None
+                        if iter_mode and s['i'] >= 0:
+                            cur = open_its.get(s['inst'])
+                            if cur is None and s['i'] == 0:
+                                cur = open_its[s['inst']] = [iter(ds), 0]
+                            if cur is not None and cur[1] == s['i']:
+                                try:
+                                    v = [_enc(next(cur[0]))]
+                                    cur[1] += 1
+                                except StopIteration:
+                                    open_its.pop(s['inst'], None)
+                        vs = v if v is not None else [_enc(ds[s['i']])]
                     elif op == 'gs':
                         vs = [_enc(ds[s['key']])]
                     elif op == 'sg':
